@@ -103,10 +103,10 @@ package push
 // cache order (the very slice), and the cache is left empty: moved, neither copied nor dropped
 //@ func (*Broker).send$1
 //@   prop C19
-//@   flag typeassert=panic
 //@   havoc
 //@   results cont
 //@   requires result != nil
+//@   requires [a_table_entry_is_a_cache_or_the_nil_of_a_denied_topic] typeis(key, string) && (value == nil || (typeis(value, *MessageCache) && as(value, *MessageCache) != nil))
 //@   modifies ghost.sm_has[*], ghost.sm_val[*], ghost.held[*]
 //@   ensures [every_cache_is_visited] cont
 //@   ensures [what_is_taken_goes_into_the_batch_under_its_topic] as(value, *MessageCache) != nil && old(len(as(value, *MessageCache).m)) > 0 ==>
@@ -206,3 +206,13 @@ package push
 //@   requires p != nil
 //@   modifies ghost.*
 //@   ensures [polling_stops_only_when_the_broker_answers_nil] topics == nil && err == nil
+
+// dropping a topic (unsubscribe, heartbeat time-out): the entry may be the nil of a denied topic
+//@ func (*Broker).offline
+//@   prop C19
+//@   havoc
+//@   requires b != nil && topics != nil
+//@   requires [a_table_entry_is_a_cache_or_the_nil_of_a_denied_topic] ghost.sm_val[ref(topics)][str(topic)] == nil ||
+//@       (typeis(ghost.sm_val[ref(topics)][str(topic)], *MessageCache) && as(ghost.sm_val[ref(topics)][str(topic)], *MessageCache) != nil)
+//@   modifies ghost.*
+//@   ensures [dropped_exactly_when_it_was_there] result == old(ghost.sm_has[ref(topics)][str(topic)])
